@@ -276,12 +276,11 @@ func (c *c05) Step(w *sim.World, s *sim.Step) *Viol {
 			switch {
 			case k == "dep" || k == "depc":
 				var amt *big.Int
-				var tok string
 				switch x := m.(type) {
 				case *types.MsgDepositForBurn:
-					amt, tok = x.Amount.BigInt(), x.BurnToken
+					amt = x.Amount.BigInt()
 				case *types.MsgDepositForBurnWithCaller:
-					amt, tok = x.Amount.BigInt(), x.BurnToken
+					amt = x.Amount.BigInt()
 				}
 				// mints belong to receives earlier in the same transaction (C04's business)
 				for ci < len(calls) && calls[ci].Kind == "mint" {
@@ -295,12 +294,12 @@ func (c *c05) Step(w *sim.World, s *sim.Step) *Viol {
 				if tr.Err != "" || bu.Err != "" {
 					return viol("C05", s.Idx, "deposit succeeded although a dependency request failed", "failure", tr.Err+bu.Err)
 				}
-				if tr.From != from || tr.To != sim.ModuleAddr() || tr.NCoins != 1 || tr.Amount != amt.String() || tr.Denom != tok {
-					return viol("C05", s.Idx, "bank transfer of a deposit", fmt.Sprintf("%s -> %s %s%s", from, sim.ModuleAddr(), amt, tok),
+				if tr.From != from || tr.To != sim.ModuleAddr() || tr.NCoins != 1 || tr.Amount != amt.String() || w.Model.L.Norm(tr.Denom) != denom {
+					return viol("C05", s.Idx, "bank transfer of a deposit", fmt.Sprintf("%s -> %s %s%s", from, sim.ModuleAddr(), amt, denom),
 						fmt.Sprintf("%s -> %s %s%s (%d coins)", tr.From, tr.To, tr.Amount, tr.Denom, tr.NCoins))
 				}
-				if bu.From != sim.ModuleAddr() || bu.Amount != amt.String() || bu.Denom != tok {
-					return viol("C05", s.Idx, "burn request of a deposit", fmt.Sprintf("%s burns %s%s", sim.ModuleAddr(), amt, tok), fmt.Sprintf("%s burns %s%s", bu.From, bu.Amount, bu.Denom))
+				if bu.From != sim.ModuleAddr() || bu.Amount != amt.String() || w.Model.L.Norm(bu.Denom) != denom {
+					return viol("C05", s.Idx, "burn request of a deposit", fmt.Sprintf("%s burns %s%s", sim.ModuleAddr(), amt, denom), fmt.Sprintf("%s burns %s%s", bu.From, bu.Amount, bu.Denom))
 				}
 				if si >= len(s.Sent) || s.Sent[si].Msg == nil || s.Sent[si].Burn == nil {
 					return viol("C05", s.Idx, "MessageSent with a burn body for a successful deposit", "present", "missing/malformed")
@@ -572,7 +571,7 @@ func (c *c06) Step(w *sim.World, s *sim.Step) *Viol {
 			if err != nil {
 				return viol("C06", s.Idx, "successful replacement of an undecodable original", "failure", "success")
 			}
-			if v := cmpMsg("C06", s.Idx, "message emitted by replace-message", sm.Msg, 0, 4, om.Dest, om.Nonce, om.Sender, om.Recip, x.NewDestinationCaller, x.NewMessageBody); v != nil {
+			if v := cmpMsg("C06", s.Idx, "message emitted by replace-message", sm.Msg, 0, 4, om.Dest, om.Nonce, om.Sender, om.Recip, zero32OrSame(x.NewDestinationCaller), x.NewMessageBody); v != nil {
 				return v
 			}
 			c.note(!sim.IsZero(x.NewDestinationCaller), len(x.NewMessageBody), hexs(sm.Bytes))
@@ -590,7 +589,7 @@ func (c *c06) Step(w *sim.World, s *sim.Step) *Viol {
 				return viol("C06", s.Idx, "successful deposit replacement of a non-burn original", "failure", "success")
 			}
 			body, _ := refcodec.EncodeBurn(&refcodec.Burn{Version: ob.Version, BurnToken: ob.BurnToken, MintRecip: x.NewMintRecipient, Amount: ob.Amount, MsgSender: ob.MsgSender})
-			if v := cmpMsg("C06", s.Idx, "message emitted by replace-deposit-for-burn", sm.Msg, 0, 4, om.Dest, om.Nonce, om.Sender, om.Recip, x.NewDestinationCaller, body); v != nil {
+			if v := cmpMsg("C06", s.Idx, "message emitted by replace-deposit-for-burn", sm.Msg, 0, 4, om.Dest, om.Nonce, om.Sender, om.Recip, zero32OrSame(x.NewDestinationCaller), body); v != nil {
 				return v
 			}
 			if di >= len(devs) {
@@ -716,7 +715,7 @@ func (c *c09) Step(w *sim.World, s *sim.Step) *Viol {
 	if keep != got {
 		return viol("C09", s.Idx, "fields a replacement must keep", keep, got)
 	}
-	if !eq(nm.Caller, newCaller) {
+	if !eq(nm.Caller, zero32OrSame(newCaller)) { // (an absent caller and 32 zero bytes both say "anyone")
 		return viol("C09", s.Idx, "destination caller of the replacement", hexs(newCaller), hexs(nm.Caller))
 	}
 	switch x := m.(type) {
